@@ -163,11 +163,18 @@ fn oracle_docs(rep: &mut Report, rng: &mut Rng, n: usize) {
         let shape = SHAPES[i % 4];
         let b = gen_box(rng, shape == "circle");
         let (dx, dy) = if rng.chance(1, 4) { (rng.range(-20, 20), rng.range(-20, 20)) } else { (0, 0) };
+        // a line has a direction: one in three runs backwards on an axis (end before start); its start is
+        // then still its start, whichever spelling names it (only pairs without a length can say that)
+        let mut reversed = false;
+        let b = if shape == "line" && rng.chance(1, 3) {
+            reversed = true;
+            match rng.below(3) { 0 => HBox { x1: b.x2, x2: b.x1, ..b }, 1 => HBox { y1: b.y2, y2: b.y1, ..b }, _ => HBox { x1: b.x2, x2: b.x1, y1: b.y2, y2: b.y1 } }
+        } else { b };
+        if reversed { st.tally("line-runs-backwards"); }
         let mut els = vec![];
         let corner: Option<(i64, i64)> = if shape == "rect" && rng.chance(1, 3) { let a = 1 + rng.range(0, 4); Some((a, if rng.chance(1, 2) { a } else { 1 + rng.range(0, 4) })) } else { None };
         for k in 0..6 {
-            let px = *rng.pick(&PAIRS);
-            let py = *rng.pick(&PAIRS);
+            let (px, py) = if reversed { (*rng.pick(&[Pair::SE, Pair::SM, Pair::EM]), *rng.pick(&[Pair::SE, Pair::SM, Pair::EM])) } else { (*rng.pick(&PAIRS), *rng.pick(&PAIRS)) };
             let (mut el, _) = spell(rng, shape, &b, px, py, k % 2 == 0);
             if (dx, dy) != (0, 0) {
                 if k % 2 == 0 {
